@@ -15,7 +15,13 @@ from typing import (
 
 from ..exc import ExtensionError, SDLError
 from ..lang import ast as _ast, parse
-from ..schema import NamedType, ObjectType, Schema, is_introspection_type
+from ..schema import (
+    SPECIFIED_DIRECTIVES,
+    NamedType,
+    ObjectType,
+    Schema,
+    is_introspection_type,
+)
 from .ast_type_builder import ASTTypeBuilder
 from .schema_directives import TSchemaDirective, apply_schema_directives
 
@@ -115,9 +121,14 @@ def build_schema_ignoring_extensions(
         ),
     )
 
+    # Like the specified types, the specified directives cannot be redefined:
+    # their definitions (e.g. in a schema printed with the introspection
+    # types) are ignored.
+    specified_directives = {d.name for d in SPECIFIED_DIRECTIVES}
     directives = [
         builder.build_directive(directive_def)
-        for directive_def in directive_defs.values()
+        for name, directive_def in directive_defs.items()
+        if name not in specified_directives
     ]
 
     # Cast is safe as type defs will always lead to named types and not wrapped types
